@@ -336,10 +336,11 @@ def cases(ctx):
         else:
             units = ["41", "30", "00", "ff", "c1", "01", "OP_1 ", "0 ", " ", "\n", "\t", "/0", "/0'", "1", "z", "=", "\\", "\"", ","]
             units += ["OP_IF OP_ELSE OP_ENDIF ", "OP_1 OP_IF OP_2 OP_ELSE OP_3 OP_ENDIF ", "6367 68", "636768"]
+        cond_units = (b"\x63\x67\x68", b"\x51\x63\x52\x67\x53\x68", b"\x64\x67\x67\x68", b"\x63\x68", "OP_IF OP_ELSE OP_ENDIF ", "OP_1 OP_IF OP_2 OP_ELSE OP_3 OP_ENDIF ", "6367 68", "636768")
         for ui, u in enumerate(units):
             k += 1
-            if k % N != S and not t:
-                continue
+            if k % N != S and (not t or u in cond_units):
+                continue  # (the runs of closed conditionals build megabytes of nested elements: one shard each, also in the thorough tier)
             enc = (lambda x: bytes(x).hex()) if kind == "bytes" else (lambda x: x)
             empty = b"" if kind == "bytes" else ""
             for n_ in run_n:
